@@ -110,6 +110,10 @@ CancelSend(s, chain, id, who) ==
     IN  IF hits = {} THEN [ok |-> FALSE, s |-> s]
         ELSE LET tr == CHOOSE tr \in hits : TRUE IN
              IF who # tr.s THEN [ok |-> FALSE, s |-> s]
+             \* a cold storage transfer (governance; sender and refund address = the transit account): its vouchers were minted
+             \* for the transfer alone, nothing is given back (before 9466331 the refund left unbacked vouchers on the transit account)
+             ELSE IF tr.s = "tmp" /\ tr.rc = "hub" /\ tr.ra = "tmp" /\ "ColdRefundToTransit" \notin Dev
+             THEN [ok |-> TRUE, s |-> [SetStatus(s, tr.x, "REFUNDED", "") EXCEPT !.ch[chain].pool = @ \ {tr}]]
              ELSE LET tok    == TokByExt(Cfg(s), chain, tr.tok)
                       denom  == tok.denom
                       refund == ConvDec(tok.dec, 18, tr.a + tr.f + tr.c)
@@ -532,6 +536,19 @@ MsgSetKeys(s, a) ==
                       !.ch[a.chain].ve = Put(@, a.val, a.ext),
                       !.ch[a.chain].eo = Put(@, a.ext, a.orch)])
 
+\* ---------------------------------------------------------------- governance
+\* ColdStorageTransferProposal (handler.go NewProposalsHandler, keeper.ColdStorageTransfer): vouchers are minted to the
+\* transit account and sent, as an ordinary outgoing transfer without fee, to the chain's cold storage address
+\* (keeper.GetColdStorageAddr); its refund address is the transit account on the hub.  The proposal handler runs in a
+\* cache context: an error discards everything.
+ColdAddr(chain) == "cold-" \o chain
+ColdHash == "e3b0c44298fc1c149afbf4c8996fb92427ae41e4649b934ca495991b7852b855"      \* sha256 of the empty tx bytes
+IsColdTransfer(chain, tr) == tr.s = "tmp" /\ tr.d = ColdAddr(chain)
+MsgGovCold(s, a) ==
+    IF a.chain \notin {"ethereum", "minter", "bsc"} \/ ~IsChain(Cfg(s), a.chain) THEN Err(s)
+    ELSE LET cr == CreateSend(Credit(s, "tmp", a.denom, a.amt), a.chain, "tmp", ColdAddr(a.chain), a.denom, a.amt, 0, 0, ColdHash, "hub", "tmp")
+         IN IF cr.ok THEN [out |-> "ok", s |-> cr.s, id |-> cr.id] ELSE Err(s)
+
 \* ---------------------------------------------------------------- the step function
 \* Step(s, a) = [out, s, id].  For "End" the caller has already put the staking module's end-of-block
 \* validator powers into s.stk / s.tot (the staking EndBlocker runs before the bridge's).
@@ -546,6 +563,7 @@ Step1(s, a) ==
       [] a.k = "Claim"    -> MsgClaim(s, a)
       [] a.k = "Confirm"  -> MsgConfirm(s, a)
       [] a.k = "SetKeys"  -> MsgSetKeys(s, a)
+      [] a.k = "Gov"      -> IF a.p = "ColdStorage" THEN MsgGovCold(s, a) ELSE Ok(s)
       [] OTHER            -> Ok(s)
 
 \* a transaction with several messages ("Tx", a.msgs): the messages run in order; if one fails, none takes effect
